@@ -38,10 +38,19 @@ impl FlowArgs {
             let pre_release_num_content = if let Some(num) = self.branch_config.pre_release_num {
                 num.to_string()
             } else {
-                format!(
-                    "{{{{ hash_int(value=bumped_branch, length={}) }}}}",
-                    hash_len
-                )
+                if self.hash_branch_len >= 10 {
+                    // The pre-release number is a u32 and a 10 digit hash may not fit
+                    format!(
+                        "{{{{ hash_int(value=bumped_branch, length={}, max_value={}) }}}}",
+                        hash_len,
+                        u32::MAX
+                    )
+                } else {
+                    format!(
+                        "{{{{ hash_int(value=bumped_branch, length={}) }}}}",
+                        hash_len
+                    )
+                }
             };
 
             let template = self.build_pre_release_bump_template(&pre_release_num_content);
